@@ -4,7 +4,7 @@ import json, os
 HERE = os.path.dirname(os.path.dirname(os.path.abspath(__file__)))
 EXTRA = {  # checks other than the own property's that were also run and reported a violation
     "C01-m1": ["C05", "C06"], "C01-m2": ["C05"], "C01-m3": ["C06"], "C01-m4": ["C06"], "C04-m1": ["C05"], "C04-m2": ["C05"],
-    "C05-m1": ["C06"], "C06-m2": ["C05"], "C06-m3": ["C05"], "C07-m3": ["C05"], "C08-m2": ["C02"], "C09-m1": ["C08"], "C09-m2": ["C08"], "C09-m3": ["C08"],
+    "C05-m1": ["C06"], "C06-m5": ["C05"], "C06-m2": ["C05"], "C06-m3": ["C05"], "C07-m3": ["C05"], "C08-m2": ["C02"], "C09-m1": ["C08"], "C09-m2": ["C08"], "C09-m3": ["C08"],
 }
 STRENGTHENED = {
     "C06-m2": "missed by the one-operation step harness; caught after multi-operation batches (hexbatch) were added to C06",
